@@ -350,13 +350,14 @@ Example angular_momentum_vector_law_fails_improper :
 Proof. vm_compute. reflexivity. Qed.
 
 (* block level through the list-level model: contracted p (2 segments) x d *)
-Example angmom_block_law_computed :
+Definition exb_angmom_block : bool :=
   forallb (fun R =>
     let S := angmom_block_re KB exP exD in
     let S' := angmom_block_re KB (rot_shell KB R exP) (rot_shell KB R exD) in
     forallb (fun k => blk2_all R 2
       (fun ma ia mb ib => fmul KB (det3 KB (matf R))
          (sum3 KB (fun l => fmul KB (matf R k l) (e5 S (ax2nat l) ma ia mb ib))))
-      (e5 S' (ax2nat k))) [AX; AY; AZ]) [R345; Rimp] = true.
+      (e5 S' (ax2nat k))) [AX; AY; AZ]) [R345; Rimp].
+Example angmom_block_law_computed : exb_angmom_block = true.
 Proof. vm_compute. reflexivity. Qed.
 End Examples.
